@@ -228,13 +228,19 @@ def replay(path: str) -> int:
           "roundtrip": "run_roundtrip_case"}[w["kind"]]
     res, _ = core.run_workers("vlib.present", fn, [c], nproc=1, hashseeds=[w.get("hashseed") or 0])
     bad = False
+    kf = core.KnownFindings()
     for r in res:
         for k in ("one_text", "final_text"):
             if r.get(k):
                 print(f"--- {k}\n{r[k]}")
         for v in r.get("violations", []):
+            # tags as recorded with the witness (structural facts about the input)
+            known = kf.match(PROP, data.get("tags", []), v["symptom"])
             print(v["symptom"], json.dumps(v["detail"])[:600])
-            bad = True
+            if known:
+                print(f"KNOWN-FINDING: property={PROP} {known['id']}: {v['symptom']}")
+            else:
+                bad = True
     if bad:
         print(f"VIOLATION property={PROP} replay={path}")
         return 1
